@@ -400,6 +400,8 @@ def e_bad_names(rng, m):
             return None
         old = t["name"]
         t["name"] = rng.choice(["1bad", "_x", "a b", old + "\n", "\n" + old,
+                                old + "^", old + "[0]", "`" + old,
+                                old + "\\x", old + "/", old + ":x",
                                 old + "\u212a", "\u017f" + old,
                                 old + "\xe9"])
         # keep references consistent so this is the only problem
@@ -422,8 +424,9 @@ def e_bad_names(rng, m):
             "badname_1"))
         return "key name invalid under " + kt
     if k == "attribute":
-        c["children"].append(_newkey("zeta9", rng.choice(["not-ident", "1x",
-                                                          "a.b", "zeta9\n"])))
+        c["children"].append(_newkey("zeta9", rng.choice(
+            ["not-ident", "1x", "a.b", "zeta9\n", "a^b", "a[0]", "z`",
+             "a\\b", "b]", "@a", "a:b", "a/b"])))
         return "bad attribute"
     if k == "getSection":
         c["children"].append(_newkey("zeta9", "getSectionThing"))
